@@ -387,20 +387,23 @@ Record b2reader := mkB2 {
   br_dec : bdec;
   br_extra_call : Z;
   br_extra_jump : Z;
-  br_size : Z           (* uncompressed_size: u64 *)
+  br_size : Z;          (* uncompressed_size: u64 *)
+  br_err : option Z     (* err: a non-transient error of an inner reader, reported by the next call (patch 16) *)
 }.
 
 Definition br_extra (r : b2reader) (s : Z) : Z :=
   if s =? BCJ2_STREAM_CALL then br_extra_call r else if s =? BCJ2_STREAM_JUMP then br_extra_jump r else 0.
 Definition br_set_extra (r : b2reader) (s x : Z) : b2reader :=
   mkB2 (br_dec r) (if s =? BCJ2_STREAM_CALL then x else br_extra_call r)
-       (if s =? BCJ2_STREAM_JUMP then x else br_extra_jump r) (br_size r).
+       (if s =? BCJ2_STREAM_JUMP then x else br_extra_jump r) (br_size r) (br_err r).
 Definition br_set_dec (r : b2reader) (d : bdec) : b2reader :=
-  mkB2 d (br_extra_call r) (br_extra_jump r) (br_size r).
+  mkB2 d (br_extra_call r) (br_extra_jump r) (br_size r) (br_err r).
 Definition br_set_size (r : b2reader) (n : Z) : b2reader :=
-  mkB2 (br_dec r) (br_extra_call r) (br_extra_jump r) n.
+  mkB2 (br_dec r) (br_extra_call r) (br_extra_jump r) n (br_err r).
+Definition br_set_err (r : b2reader) (e : option Z) : b2reader :=
+  mkB2 (br_dec r) (br_extra_call r) (br_extra_jump r) (br_size r) e.
 
-Definition bcj2_reader_new (uncompressed_size : Z) : b2reader := mkB2 bdec_new 0 0 uncompressed_size.
+Definition bcj2_reader_new (uncompressed_size : Z) : b2reader := mkB2 bdec_new 0 0 uncompressed_size None.
 
 (* the inner `loop` of the refill:
      loop { cur = inputs[s].read(&mut buf[total_read .. BUF_SIZE])?; if cur == 0 { break }
@@ -473,10 +476,12 @@ Fixpoint bcj2_read_loop (old_errors : bool) (fuel : nat) (lim : Z) (r : b2reader
               | Some c =>
                   if old_errors then Ok ([], Some c, br_set_dec r2 d2, ins')
                   else
-                    (* patch 16: keep what has been read of the word, hand out what has been decoded *)
+                    (* patch 16: keep what has been read of the word, hand out what has been decoded;
+                       an error other than Interrupted is remembered for the next call *)
                     let r3 := br_set_dec r2 (bd_set_stream d1 s (mkSb buf 0)) in
                     let r3 := if bcj2_is_32bit_stream s then br_set_extra r3 s total else r3 in
-                    if result_size =? 0 then Ok ([], Some c, r3, ins') else Ok (rev out, None, r3, ins')
+                    if result_size =? 0 then Ok ([], Some c, r3, ins')
+                    else Ok (rev out, None, (if c =? E_INTERRUPTED then r3 else br_set_err r3 (Some c)), ins')
               | None =>
                   if total =? 0 then Ok (bcj2_read_tail (br_set_dec r2 d2) ins' out)
                   else if bcj2_is_32bit_stream s then
@@ -497,9 +502,13 @@ Fixpoint bcj2_read_loop (old_errors : bool) (fuel : nat) (lim : Z) (r : b2reader
 
 (* BCJ2Reader::read(buf) with buf.len() = n *)
 Definition bcj2_read_gen (old_errors : bool) (fuel : nat) (r : b2reader) (ins : inners) (n : Z) : outcome b2_result :=
-  let lim := if br_size r <? n then br_size r else n in
-  if lim <=? 0 then Ok ([], None, r, ins)
-  else bcj2_read_loop old_errors fuel lim (br_set_dec r (bd_set_dest (br_dec r) 0)) ins [] 0 0.
+  match (if 0 <? n then br_err r else None) with
+  | Some c => Ok ([], Some c, br_set_err r None, ins)       (* if !buf.is_empty() { if let Some(err) = self.err.take() { return Err(err) } } *)
+  | None =>
+      let lim := if br_size r <? n then br_size r else n in
+      if lim <=? 0 then Ok ([], None, r, ins)
+      else bcj2_read_loop old_errors fuel lim (br_set_dec r (bd_set_dest (br_dec r) 0)) ins [] 0 0
+  end.
 
 Definition bcj2_read := bcj2_read_gen false.
 
